@@ -281,6 +281,26 @@ pub fn gen80(tier: &str, r: &mut Rng, emit: &mut dyn FnMut(Vec<u64>)) {
         }
         emit(write_case(m, 0, &steps));
     }
+    // a transfer abandoned before its final block, the resource changes, and a new transfer starts WITHOUT Block2:
+    // it must deliver the new body (the stale cache entry may not be used)
+    for _ in 0..(if thorough { 2000 } else { 200 }) {
+        let m = r.pick(&[76u64, 140, 300, 1152]);
+        let (o1, o2) = (rand_reply_opts(r), rand_reply_opts(r));
+        let m = m.max(min_budget(&o1, 8)).max(min_budget(&o2, 8));
+        let rp1 = Reply { code: 0x45, opts: o1, body: r.bytes_pick(&[88usize, 200, 700, 3000]) };
+        let mut first = ReqSpec::get(&["res", "b"]);
+        first.token = r.bytes_below(9); first.mid = 1000;
+        first.b2 = if r.chance(1, 2) { None } else { Some(bv(0, false, r.below(3) as u8)) };
+        let t1 = play_block2(m, &first, 7, &rp1, None, 1);
+        if t1.len() < 2 { continue; }
+        let keep = 1 + r.below(t1.len() as u64 - 1) as usize;
+        let mut steps: Vec<Step> = t1[..keep].to_vec();
+        let rp2 = Reply { code: 0x45, opts: o2, body: r.bytes_pick(&[10usize, 88, 200, 700]) };
+        let mut second = ReqSpec::get(&["res", "b"]);
+        second.token = r.bytes_below(9); second.mid = 2000; second.b2 = None;
+        steps.extend(play_block2_on(m, &second, 7, &rp2, None, 2, &steps));
+        emit(write_case(m, 0, &steps));
+    }
     // early negotiation x budgets x mid-transfer reduction
     for _ in 0..(if thorough { 20_000 } else { 500 }) {
         let blen = r.pick(&[0usize, 1, 15, 16, 17, 100, 500, 1023, 1024, 1025, 3000]);
@@ -299,6 +319,8 @@ pub fn gen90(tier: &str, r: &mut Rng, emit: &mut dyn FnMut(Vec<u64>)) {
     let rp = Reply { code: 0x44, opts: vec![], body: vec![] };
     let mut base = ReqSpec::get(&["up"]); base.code = 3;
     for szx in 0..7u8 {
+        // POST, PUT, FETCH, PATCH, iPATCH: block-wise uploads are not tied to a method
+        base.code = [2u64, 3, 5, 6, 7][szx as usize % 5];
         let sz = 16usize << szx;
         let mut lens: Vec<usize> = vec![0, 1, sz - 1, sz, sz + 1, 2 * sz - 1, 2 * sz, 2 * sz + 1, 3 * sz + 5];
         if thorough || szx == 0 { lens.extend(0..=(3 * sz + 1)); }
@@ -334,6 +356,31 @@ pub fn gen90(tier: &str, r: &mut Rng, emit: &mut dyn FnMut(Vec<u64>)) {
         let mut q = base.clone(); let extra = r.below(400); q.payload = r.bytes((m + extra) as usize); q.token = r.bytes_below(9);
         emit(write_case(m, 0, &[Step::Ex(8, q.desc(), 7, rp.clone())]));
     }
+    // the same after an abandoned upload or an earlier refusal on the same resource whose requests had SHORTER options
+    // (Uri-Query is not part of the key): the refusal depends on the request at hand only
+    for _ in 0..(if thorough { 2000 } else { 200 }) {
+        let mut b = base.clone(); b.code = r.pick(&[2u64, 3, 5, 6, 7]); b.token = r.bytes_below(9);
+        let mut q = b.clone(); q.mid = 9;
+        let ql = 20 + r.below(40) as usize;
+        q.extra.push((15, vec![r.bytes(ql)]));
+        let oh = packet_of(&q.desc()).to_bytes_unlimited().unwrap().len() as u64;
+        // a budget that still admits a 16-byte block for the request with the long options
+        let m = (64 + r.below(400)).max(oh + 28);
+        let mut steps = Vec::new();
+        if r.chance(1, 2) {
+            let body = r.bytes(16 * 3 + 5);
+            let upto = 1 + r.below(2) as usize;
+            steps.extend(upload_steps(9, &b, 7, &body, 0, &|_| 1, Some(upto), &rp));
+        } else {
+            let mut q0 = b.clone(); q0.payload = r.bytes((m + 10) as usize); q0.mid = 3;
+            steps.push(Step::Ex(9, q0.desc(), 7, rp.clone()));
+        }
+        // just over the budget with the long options, under it with the short ones
+        let over = 1 + r.below(12);
+        q.payload = r.bytes((m + over - oh) as usize);
+        steps.push(Step::Ex(8, q.desc(), 7, rp.clone()));
+        emit(write_case(m, 0, &steps));
+    }
 }
 
 // ------------------------------------------------------------------ suite 100
@@ -366,6 +413,17 @@ pub fn gen100(tier: &str, r: &mut Rng, emit: &mut dyn FnMut(Vec<u64>)) {
             let n = steps.len().min(4);
             emit(write_case(m, 0, &steps[..n]));
         }
+    }
+    // only (final) block uploads at the client's largest sizes, incl. the reserved exponent 7, at small and large budgets
+    for _ in 0..(if thorough { 6_000 } else { 400 }) {
+        let mut base = ReqSpec::get(&["f"]);
+        base.code = r.pick(&[2u64, 3, 7]); base.token = r.bytes_below(9);
+        let overhead = packet_of(&base.desc()).to_bytes_unlimited().unwrap().len() as u64 + 4;
+        let body = r.bytes_pick(&[1usize, 10, 40]);
+        let m = (overhead + 28 + body.len() as u64 + r.below(200)).min(1280);
+        let szx = 2 + r.below(6) as u8;
+        let steps = upload_steps(1, &base, 7, &body, szx, &|_| 1, None, &Reply { code: 0x44, opts: vec![], body: vec![] });
+        emit(write_case(m, 0, &steps));
     }
     // a request that ends an upload AND names a Block2 size for the (large) reply: the reply's block must not exceed it
     for _ in 0..(if thorough { 6_000 } else { 400 }) {
@@ -504,12 +562,14 @@ pub fn gen200(tier: &str, r: &mut Rng, emit: &mut dyn FnMut(Vec<u64>)) {
     // retention: expiry of one hour, 1..2000 intervening requests on other keys
     for &n in (if thorough { &[1u64, 2, 10, 100, 500, 1023, 1024, 2000][..] } else { &[1u64, 7, 150, 1100, 2000][..] }) { for kind in 0..2 {
         let mut steps = Vec::new();
-        let mut q = ReqSpec::get(&["keep"]);
+        let mut q = ReqSpec::get(&["ke", "ep"]);
         if kind == 0 {
             let rp = Reply { code: 0x45, opts: vec![], body: r.bytes(100) };
             q.b2 = Some(bv(0, false, 0));
             steps.push(Step::Ex(1, q.desc(), 7, rp.clone()));
             for i in 0..n { steps.push(other(i)); }
+            // a different resource whose joined path reads the same, requested by the same endpoint with the same method
+            { let mut o = ReqSpec::get(&["ke/ep"]); o.mid = 77; o.token = vec![9]; steps.push(Step::Ex(40, o.desc(), 7, Reply { code: 0x45, opts: vec![], body: r.bytes(if n % 2 == 1 { 3000 } else { 50 }) })); }
             let mut f = q.clone(); f.b2 = Some(bv(1, false, 0)); f.mid = 9; steps.push(Step::Ex(1, f.desc(), 7, rp));
         } else {
             q.code = 3;
@@ -517,6 +577,7 @@ pub fn gen200(tier: &str, r: &mut Rng, emit: &mut dyn FnMut(Vec<u64>)) {
             let up = upload_steps(1, &q, 7, &body, 0, &|_| 1, None, &Reply { code: 0x44, ..Default::default() });
             steps.extend(up[..2].iter().cloned());
             for i in 0..n { steps.push(other(i)); }
+            { let mut o = ReqSpec::get(&["ke/ep"]); o.code = 3; o.mid = 77; o.token = vec![9]; o.payload = vec![1, 2, 3]; if n % 2 == 1 { o.b1 = Some(bv(0, false, 0)); } steps.push(Step::Ex(40, o.desc(), 7, Reply { code: 0x44, ..Default::default() })); }
             steps.push(up[2].clone());
         }
         emit(write_case(1152, 0, &steps));
